@@ -98,6 +98,7 @@ var stmtForms = []struct{ name, body string }{
 	{"expr-stmt-paren", "\t(g(a))\n\treturn (a + (b))\n"},
 	{"case-lists", "\tr := 0\n\tswitch a {\n\tcase 1, 2:\n\t\tr = 1\n\tcase g(b), b, 7:\n\t\tr = 2\n\tdefault:\n\t\tr = 3\n\t}\n\tswitch {\n\tcase ok(a), ok(b):\n\t\tr += 10\n\tcase a == b, a+1 == b:\n\t\tr += 20\n\t}\n\tfor i := 0; i < 2; i++ {\n\t\tswitch i + a {\n\t\tcase 0, 1:\n\t\t\tcontinue\n\t\tcase 2, 3:\n\t\t\tbreak\n\t\t}\n\t\tr += 100\n\t}\n\treturn r\n"},
 	{"variadic-calls", "\tt := &T{v: a}\n\tsum(a)\n\tsum(a, 1, b)\n\tsum(a, mk(b)...)\n\tt.vs()\n\tt.vs(1, 200)\n\tx := sum(a, b) + t.vs(7, 8, 9)\n\tif x > 3 {\n\t\treturn sum(x, mk(b)...)\n\t}\n\treturn spread(a, b)\n"},
+	{"make-forms", "\tm := make(map[string]int, 4)\n\tn := make(map[int]string)\n\ts := make([]int, 2)\n\tm[\"k\"] = a\n\tn[b] = \"v\"\n\ts[1] = b\n\tif a > 0 {\n\t\tq := make(map[int]int, a)\n\t\tq[1] = 2\n\t\treturn len(q) + len(m)\n\t}\n\treturn len(m) + len(n) + len(s) + s[1]\n"},
 	{"blank-params", "\tx := bp(a, b, 5)\n\tbp(1, 2, 3)\n\ty := bq(a, b)\n\treturn x + y + bp(b, a, a)\n"},
 }
 
